@@ -258,6 +258,11 @@ let run_case op kv : string * string =
        (match pf_new x i1 i2 with
         | Panic p -> ("Panic:" ^ fmt_panic p, "-")
         | Ok f -> let (r, t) = pf_find_prefilter cpu f (nat_of_int (num kv "a")) h in (fmt_res fmt_opt_nat r, fmt_trace t)))
+  | "rknew" | "rkrnew" ->
+    let x = bytes kv "x" in
+    let f = if op = "rknew" then rk_new x else rk_new_rev x in
+    let body = Printf.sprintf "Finder { hash: Hash(%s), hash_2pow: %s }" (string_of_n f.rk_hash) (string_of_n f.rk_2pow) in
+    ((if op = "rknew" then body else "FinderRev(" ^ body ^ ")"), "-")
   | "twnew" | "twrnew" ->
     let x = bytes kv "x" in
     let (r, t) = if op = "twnew" then tw_new x else tw_new_rev x in
